@@ -11,6 +11,20 @@ NOTE_COMMON = ("Theorems are about a hand-written Lean model; the model is tied 
                "float rounding measured not proved. Axioms: propext, Classical.choice, Quot.sound only.")
 
 CLAIMS = {
+ "C20": dict(
+   text="Proof (Lean 4 + Mathlib real analysis). Formulas are written once over an abstract record of operations and instantiated "
+        "with Float (driver, compared with the code to 1e-9 on 1100+ points per run) and with the reals (theorems): "
+        "roundtrip_closed_forms (NTU -> eff -> NTU = NTU for counter flow c<1 and c=1, parallel flow, condenser/evaporator, "
+        "Cmax-unmixed, Cmin-unmixed, for ALL NTU > 0 and capacity ratios in their domain), eff_range_and_mono, eff_at_c0, "
+        "lmtd_bounds (min <= LMTD <= arithmetic mean, via a proved log inequality, and symmetry), lmtd_equal, and "
+        "dispatch_total_and_consistent (kernel decide over a table regenerated every run by probing the live HX_Eff/HX_NTU "
+        "on all 8 arrangements x 2 label forms against independent textbook formulas). NOT proved: anything about the two "
+        "numerically inverted cross-flow relations, the shell-and-tube round trip, eff <= counter-flow in general, multi-pass "
+        "conversions — these are decided by the oracle (independent textbook formulas, range, monotonicity, both round trips) on "
+        "1500+ random (arrangement, form, NTU, c, passes) points per run. Known findings: truncated cross-flow series (pinned by "
+        "tests), both-mixed relation not monotone at high NTU.",
+   technique="Lean 4 proof over the reals (Mathlib analysis) on formulas shared with the Float driver + correspondence + textbook oracle",
+   design="§6 C20"),
  "C07": dict(
    text="Partial proof (Lean 4) about the code-shaped model of get_GCC_without_pockets (explicit row indices, exit-index search, "
         "flatten range, i += n_added*sgn, Python loop bound as fuel) and of get_seperated_gcc_heat_load_profiles: gcc_unchanged — "
